@@ -152,6 +152,29 @@ def run_krylov(desc, seed):
     try:
         got, nvec = expm_krylov(lambda y: A @ y, dt, x.copy(), block_size=bs)
         got = np.asarray(got)
+        if spec in ("identity", "diag"):
+            # the operator is handed over as a FUNCTION: for these spectra it can be written so that it returns its argument itself,
+            # a view of it, or works through a preallocated buffer -- the result must be the same
+            dvec = np.real(np.diag(A)).copy()
+            buf = np.empty(n, dtype=complex if (np.iscomplexobj(x) or np.iscomplexobj(A)) else float)
+
+            def through_buffer(y):
+                np.multiply(dvec, y, out=buf)
+                return buf
+            forms = [("returns-a-reused-buffer", through_buffer, ref)]
+            if spec == "identity":
+                # the identity operator itself (the spectrum above is 1.7 x identity)
+                forms += [("returns-its-argument", lambda y: y, np.exp(dt) * x), ("returns-a-view-of-its-argument", lambda y: y[:], np.exp(dt) * x)]
+            for fname, fn, ref_f in forms:
+                try:
+                    g2, _ = expm_krylov(fn, dt, x.copy(), block_size=bs)
+                    g2 = np.asarray(g2)
+                except Exception as e:
+                    return {"nontrivial": n > 1, "outcome": "exception", "viol": [{"sig": f"C18:krylov:operator-function:{fname}:exception:{type(e).__name__}", "msg": f"{desc}: {e!r}"}]}
+                e2 = np.linalg.norm(g2 - ref_f) / max(np.linalg.norm(ref_f), 1e-300)
+                if not np.all(np.isfinite(g2)) or e2 > 1e-5 + 1e-13 * np.exp(abs(np.real(dt)) * spread):
+                    return {"nontrivial": n > 1, "outcome": "mismatch", "viol": [{"sig": f"C18:krylov:operator-function:{fname}",
+                            "msg": f"expm_krylov with an operator function that {fname}: rel err {e2:.3e} (n={n} spec={spec} start={start} field={field} dt={dt} block={bs})"}]}
     except Exception as e:
         cls = "kernel-start" if np.linalg.norm(A @ x) == 0 else "other"
         return {"nontrivial": n > 1, "outcome": "exception", "viol": [{"sig": f"C18:krylov:exception:{cls}:{type(e).__name__}",
@@ -206,6 +229,25 @@ def run_blocked(desc, seed):
             rs = env.rng(seed, ("blocked", lp, rp, alpha))
             C = rs.standard_normal((l, r)) + 0.0
             Cc = C + 1j * rs.standard_normal((l, r))
+            # history: ONE array object carries the total label and is updated IN PLACE between the calls (the package does this itself:
+            # Mpo.apply has `new_mps.qntot += self.qntot`); every call must decompose for the label the array holds at that moment
+            tot_arr = totals(alpha)[0].copy()
+            for tot in totals(alpha):
+                tot_arr[...] = tot
+                hmask = np.all(ql[:, None, :] + qr[None, :, :] == tot[None, None, :], axis=-1)
+                if not hmask.any():
+                    continue
+                Hm = np.where(hmask, C, 0)
+                for hmode, kw in (("svd-economic", dict(full_matrices=False)), ("qr-L-economic", dict(QR=True, system="L", full_matrices=False))):
+                    ndecomp += 1
+                    try:
+                        out = sq.svd_qn(C.copy(), ql, qr, tot_arr, **kw)
+                        rec = (out[0] * out[1]) @ out[3].T if len(out) == 6 else out[0][:, :min(out[0].shape[1], out[2].shape[1])] @ out[2][:, :min(out[0].shape[1], out[2].shape[1])].T
+                    except Exception as e:
+                        add(f"C18:blocked:{hmode}:in-place-updated-total:exception:{type(e).__name__}", f"ql={ql.tolist()} qr={qr.tolist()} qntot={tot.tolist()} (same array object as in the previous call): {e!r}")
+                        continue
+                    if not close(rec, Hm, 1e-9, floor=1e-12):
+                        add(f"C18:blocked:{hmode}:in-place-updated-total", f"ql={ql.tolist()} qr={qr.tolist()}: with the total label updated in place to {tot.tolist()} the factors restore something that differs from the allowed part by rel {rel_err(rec, Hm):.2e}")
             for tot in totals(alpha):
                 mask = np.all(ql[:, None, :] + qr[None, :, :] == tot[None, None, :], axis=-1)
                 any_allowed = bool(mask.any())
